@@ -20,7 +20,7 @@ Tok == {"p1", "p2", "p4"}        \* NaN payload / -0 / negative NaN payload (flo
 CtorPaths  == {"new", "from_array", "from_slice", "from_array_trait", "from_tuple", "free_fn"}
 WritePaths == {"field", "index_mut", "as_mut", "with"}
 ReadPaths  == {"field", "index", "to_array", "write_to_slice", "into_array", "into_tuple",
-               "as_ref", "debug", "display", "eq_self"}
+               "as_ref", "debug", "display", "display_prec", "eq_self"}
 
 \* named constants: lanes in named tokens
 Unit(k, i, a, b) == [j \in 1..k |-> IF j = i THEN a ELSE b]
